@@ -113,6 +113,20 @@ Theorem c11_cyclic_table_never_resolves_refuted :
   forall fuel all, inherit_loop fuel all cyc_tags [] = None.
 Proof. exact cycle_never_resolves. Qed.
 
+(* 9. LIMIT of theorems 1-3: they are about a state directory that can be written.  When saveState
+      fails the call returns the error but keeps the change (no rollback): witness below, reproduced on
+      the Go code by fault injection (corpus/C11/iofail/savestate-failure.json, replay only).  The graph
+      invariant is kept even then. *)
+Theorem c11_save_failure_leaves_change_refuted :
+  let st := init_state [] 4%N in
+  fst (step_savefail demo_parse st (CAdd "tag/a" "red" "sport:80")) = Err ESaveState /\
+  tags (snd (step_savefail demo_parse st (CAdd "tag/a" "red" "sport:80"))) <> tags st.
+Proof. exact savefail_keeps_change. Qed.
+
+Theorem c11_save_failure_keeps_graph_wf :
+  forall parse st c, wf_tags (tags st) -> wf_tags (tags (snd (step_savefail parse st c))).
+Proof. exact savefail_wf. Qed.
+
 (* Non-vacuity: the hypotheses are satisfiable and the interesting branches are taken. *)
 Example c11_ex_wf_nonempty :
   let st := run demo_parse (init_state [] 4%N) [CAdd "tag/a" "red" "sport:80"; CAdd "tag/b" "red" "tag:a"] in
